@@ -309,7 +309,7 @@ def accumulator_facts(repo: Path) -> dict:
 def class_facts(repo: Path) -> dict:
 	"""method resolution of the signature collections, as the translator's `self_calls` tables assume it: which class defines which of the
 	indexing methods, and the order of the base classes that makes the mixin's `__getitem__` the one that runs"""
-	f = dict.fromkeys(['concatBases', 'concatMethods', 'arrayInherits', 'hdf5Inherits', 'listBases', 'listMethods', 'mixinMethods', 'refSigsNeutral'], False)
+	f = dict.fromkeys(['concatBases', 'concatMethods', 'arrayInherits', 'hdf5Inherits', 'listBases', 'listMethods', 'mixinMethods', 'refSigsNeutral', 'annotatedDelegates'], False)
 	try:
 		base = ast.parse((repo / 'src' / 'gambit' / 'sigs' / 'base.py').read_text())
 		h5 = ast.parse((repo / 'src' / 'gambit' / 'sigs' / 'hdf5.py').read_text())
@@ -343,6 +343,19 @@ def class_facts(repo: Path) -> dict:
 	f['listMethods'] = sl is not None and defined(sl) & INDEXING == {'__len__', '_getitem_int', '_getitem_int_array'}
 	f['mixinMethods'] = mx is not None and not mx.bases and defined(mx) & INDEXING == {'__getitem__', '_check_index', '_getitem_int', '_getitem_slice', '_getitem_int_array', '_getitem_bool_array'}
 	f['refSigsNeutral'] = bases(rs) == ['AbstractSignatureArray'] and not (defined(rs) & INDEXING)
+	# the annotated wrapper delegates: indexing, length, iteration, parameters and integer type are those of the wrapped collection
+	an = cls(base, 'AnnotatedSignatures')
+
+	def mbody(c, name):
+		m = next((x for x in (c.body if c is not None else []) if isinstance(x, ast.FunctionDef) and x.name == name), None)
+		return None if m is None else [ast.unparse(x) for x in _body(m)]
+	init = mbody(an, '__init__') or []
+	f['annotatedDelegates'] = (bases(an) == ['ReferenceSignatures']
+	                           and mbody(an, '__getitem__') == ['return self.signatures[index]'] and mbody(an, '__len__') == ['return len(self.signatures)']
+	                           and mbody(an, '__iter__') == ['return iter(self.signatures)'] and mbody(an, 'kmerspec') == ['return self.signatures.kmerspec']
+	                           and mbody(an, 'dtype') == ['return self.signatures.dtype']
+	                           and 'self.signatures = signatures' in init and 'self.ids = ids' in init and 'self.meta = meta' in init
+	                           and any(t.startswith('if ids is None:') and 'ids = range(len(signatures))' in t and 'elif len(ids) != len(signatures):' in t and 'raise ValueError' in t for t in init))
 	return f
 
 
@@ -742,7 +755,8 @@ def regenerate(repo: Path, out_dir: Path) -> dict:
 	        'listBases': '`SignatureList(AdvancedIndexingMixin, AbstractSignatureArray, …)`: the mixin first',
 	        'listMethods': '… and defines exactly `__len__`, `_getitem_int`, `_getitem_int_array` (slices and masks: the mixin\'s defaults)',
 	        'mixinMethods': '`AdvancedIndexingMixin` has no base class and defines `__getitem__`, `_check_index` and the four `_getitem_*`',
-	        'refSigsNeutral': '`ReferenceSignatures(AbstractSignatureArray)` defines none of the indexing methods'}
+	        'refSigsNeutral': '`ReferenceSignatures(AbstractSignatureArray)` defines none of the indexing methods',
+	        'annotatedDelegates': '`AnnotatedSignatures` delegates `__getitem__`, `__len__`, `__iter__`, `kmerspec`, `dtype` to the wrapped collection, keeps the IDs and metadata it is given, and refuses IDs of another length'}
 	ktext = ('/-\nGENERATED by harness/pytrace.py from src/gambit/sigs/base.py, sigs/hdf5.py, util/indexing.py — do not edit.\n'
 	         'Regenerated at the start of every check; `GambitV.Tie.PyClassFacts` proves them.\n-/\nnamespace GambitV.Gen\n\n'
 	         + ''.join(f'/-- {KDOC[k]} -/\ndef pyClass_{k} : Bool := {b(v)}\n' for k, v in kf.items()) + '\nend GambitV.Gen\n')
